@@ -236,6 +236,7 @@ def check(facts, rep, tier, cfg):
                     rep.ok("C17.R3", "server-client-auth", where, "Some(ca): WebPki client verifier required; None: no client auth")
     # ---- R4 names and flags
     rep.rule("C17.R4", "argument roles: tls_connect -> make_client_config / ServerName / connect; handshake -> tls_connect")
+    n_hs = [0]
     for b in crate.bodies:
         if b.path.endswith("tls::tls_connect::{closure#0}"):
             tr = Tracer(facts, b)
@@ -258,7 +259,8 @@ def check(facts, rep, tier, cfg):
                         rep.ok("C17.R4", "tls_connect->connect(server_name)", where, "the requested server name is the name verified")
                     else:
                         rep.bad("C17.R4", "tls_connect->connect(server_name)", where, "the TLS connector is not given the caller's server_name")
-        if b.path.endswith("ws_connect::handshake_inner::{closure#0}"):
+        if "client" in crate.features and any(callee(t) and callee(t)["name"] == "tls_connect" for _, t in b.calls()):
+            n_hs[0] += 1
             tr = Tracer(facts, b)
             rep.analysed(b)
             where = "%s (%s)" % (loc_str(b.loc), b.path)
@@ -268,24 +270,37 @@ def check(facts, rep, tier, cfg):
                     flag = rules_c03._flat_fields(tr.operand(t["args"][5]))
                     name = rules_c03._flat_fields(tr.operand(t["args"][1]))
                     roles = [sorted(x for x in rules_c03._flat_fields(tr.operand(a)) if x.startswith("ClientArgs.")) for a in t["args"][2:5]]
-                    ok = "ClientArgs.tls_skip_verify" in flag and {"ClientArgs.hostname", "ClientArgs.tls_server_name", "ClientArgs.server"} <= name and \
+                    ok = "ClientArgs.tls_skip_verify" in flag and "ClientArgs.server" in name and \
                         roles == [["ClientArgs.tls_cert"], ["ClientArgs.tls_key"], ["ClientArgs.tls_ca"]]
                     if ok:
                         rep.ok("C17.R4", "handshake->tls_connect", where, "name <- host|hostname|tls_server_name; cert/key/ca/skip flag in their roles")
                     else:
                         rep.bad("C17.R4", "handshake->tls_connect", where, "tls_connect receives name<-%s flag<-%s cert/key/ca<-%s" % (sorted(name), sorted(flag), roles))
                     # precedence: the last assignment of the SNI variable is from tls_server_name
-                    sni_local = t["args"][1]["p"]["l"] if t["args"][1]["k"] in ("copy", "move") else None
-                    # follow a single copy
-                    ds = b.defs.get(sni_local, [])
-                    if len(ds) == 1 and ds[0][2]["k"] == "Assign" and ds[0][2]["rv"]["k"] == "Use" and ds[0][2]["rv"]["ops"][0]["k"] in ("copy", "move"):
-                        sni_local = ds[0][2]["rv"]["ops"][0]["p"]["l"]
-                        ds = b.defs.get(sni_local, [])
+                    # the variable handed to tls_connect: the user variable in the provenance of the argument
+                    sni_local = None
+                    cur = t["args"][1]["p"]["l"] if t["args"][1]["k"] in ("copy", "move") else None
+                    for _ in range(6):
+                        if cur is None:
+                            break
+                        if cur in b.names and len(b.defs.get(cur, [])) > 1:
+                            sni_local = cur
+                            break
+                        ds0 = b.defs.get(cur, [])
+                        nxt = None
+                        if len(ds0) == 1 and ds0[0][1] != "term":
+                            rv = ds0[0][2]["rv"]
+                            if rv["k"] == "Use" and rv["ops"][0]["k"] in ("copy", "move"):
+                                nxt = rv["ops"][0]["p"]["l"]
+                            elif rv["k"] == "Ref":
+                                nxt = rv["place"]["l"]
+                        cur = nxt
+                    ds = b.defs.get(sni_local, []) if sni_local is not None else []
                     order = []
                     for (dbb, si, s) in ds:
                         if si == "term":
                             continue
-                        fl = rules_c03._flat_fields(tr.rvalue(s["rv"]))
+                        fl = set("ClientArgs." + x[2] for x in walk(tr.rvalue(s["rv"])) if x.kind == "field" and (x[3] or "").endswith("ClientArgs"))
                         tag = "tls_server_name" if "ClientArgs.tls_server_name" in fl else "hostname" if "ClientArgs.hostname" in fl else "host"
                         order.append((dbb, tag))
                     tags = dict((tg, bb) for bb, tg in order)
@@ -294,6 +309,8 @@ def check(facts, rep, tier, cfg):
                         rep.ok("C17.R4", "sni-precedence", where, "host < --hostname < --tls-server-name")
                     else:
                         rep.bad("C17.R4", "sni-precedence", where, "SNI precedence is not host < --hostname < --tls-server-name (assignments: %s)" % order)
+    if "client" in crate.features:
+        rep.floor("C17.R4", "tls_connect call sites in the client handshake", n_hs[0], 1)
     # ---- R5
     rep.rule("C17.R5", "hot swap: reload stores on success; listener snapshots load_full() per accepted connection")
     for b in crate.bodies:
